@@ -484,6 +484,7 @@ type scanWrap struct {
 	onRemove  func(mailbox, id string)
 	onRemoved func(mailbox, id string, err error)
 	onReturn  func(cont bool)
+	failVisit bool // VisitMailboxes fails before visiting anything (unreadable store)
 	visits    int32
 	removes   int32
 	tVisit    int64 // UnixNano at the first VisitMailboxes call: DoScan has computed its cutoff before that
@@ -513,6 +514,9 @@ func (w *scanWrap) window(t0 time.Time, period time.Duration) (lo, hi time.Time,
 func (w *scanWrap) VisitMailboxes(f func([]storage.Message) bool) error {
 	atomic.CompareAndSwapInt64(&w.tVisit, 0, time.Now().UnixNano())
 	atomic.AddInt32(&w.visits, 1)
+	if w.failVisit {
+		return fmt.Errorf("injected: the store cannot be listed")
+	}
 	return w.Store.VisitMailboxes(func(ms []storage.Message) bool {
 		if w.onSnap != nil {
 			w.onSnap(ms)
@@ -1295,6 +1299,59 @@ func c12StartFull(c *core.Ctx, r *rand.Rand, kind string) {
 	c.Count("startfull-"+kind, true)
 }
 
+// thorough only: a store whose scans FAIL (VisitMailboxes returns an error) must not cost the scanner its shutdown: once the first scan has
+// failed, a cancel still ends Start and Join promptly, and nothing was removed
+func c12StartFailing(c *core.Ctx) {
+	bm, _, cleanup, ok := c12Backends(c, "failing")
+	if !ok {
+		return
+	}
+	defer cleanup()
+	now0 := time.Now().Unix()
+	tr := []string{"# Start on a store whose VisitMailboxes fails; cancelled after the first (failed) scan"}
+	adds := []storeOp{{kind: "add", box: "b0", body: []byte("body"), from: "s@src.net", to: []string{"r@d.org"}, subj: "x", date: now0 - 100000}}
+	if !c12Build(c, nil, []*backend{bm}, adds, &tr) {
+		return
+	}
+	w := &scanWrap{Store: bm.st, failVisit: true}
+	rs := storage.NewRetentionScanner(config.Storage{RetentionPeriod: time.Hour, RetentionSleep: time.Millisecond}, w)
+	ctx, cancel := context.WithCancel(context.Background())
+	defer cancel()
+	startRet := make(chan struct{})
+	go func() { rs.Start(ctx); close(startRet) }()
+	deadline := time.Now().Add(80 * time.Second)
+	for time.Now().Before(deadline) && atomic.LoadInt32(&w.visits) < 1 {
+		time.Sleep(50 * time.Millisecond)
+	}
+	if atomic.LoadInt32(&w.visits) < 1 {
+		c.Fail("start-scans-once-a-minute", tr, "no scan within 80 s", "")
+		return
+	}
+	time.Sleep(300 * time.Millisecond)
+	cancel()
+	t1 := time.Now()
+	joined := make(chan struct{})
+	go func() { rs.Join(); close(joined) }()
+	select {
+	case <-joined:
+		c.H("startfailing:join-latency:" + latBucket(time.Since(t1)))
+		if l := time.Since(t1); l > 2*time.Second {
+			c.Fail("join-prompt", tr, fmt.Sprintf("after a failed scan Join returned %v after the cancel", l), "")
+		}
+	case <-time.After(12 * time.Second):
+		c.Fail("join-prompt", tr, "after a failed scan Join did not return within 12 s of the cancel", "")
+	}
+	select {
+	case <-startRet:
+	case <-time.After(3 * time.Second):
+		c.Fail("start-returns", tr, "after a failed scan Start did not return after the cancel", "")
+	}
+	if atomic.LoadInt32(&w.removes) != 0 {
+		c.Fail("failed-scan-removes-nothing", tr, fmt.Sprintf("%d RemoveMessage calls", w.removes), "")
+	}
+	c.Count("startfailing", true)
+}
+
 // addRaw delivers directly (used from racing goroutines; no shared bookkeeping)
 func addRaw(b *backend, o storeOp) (string, error) {
 	tos := make([]*mail.Address, len(o.to))
@@ -1344,6 +1401,8 @@ func runC12(c *core.Ctx) {
 			bg.Add(1)
 			go func(k string) { defer bg.Done(); c12StartFull(c, c.SubRng("c12-full-"+k), k) }(k)
 		}
+		bg.Add(1)
+		go func() { defer bg.Done(); c12StartFailing(c) }()
 	}
 	workers := 8
 	core.Parallel(workers, workers, func(sh int) {
@@ -1375,6 +1434,9 @@ func runC12(c *core.Ctx) {
 			c12Cancel(c, r, i, []string{"mem", "file"}[(i/2)%2])
 		}
 	})
+	if f, ok := extra["C12"]; ok {
+		f(c)
+	}
 	bg.Wait()
 	late, checks := atomic.LoadInt64(&c12LateTimer), atomic.LoadInt64(&c12CancelledChecks)
 	c.Note("inter leg: %d selects were entered with ctx already cancelled and RetentionSleep > 0; %d of them took the timer case (goroutine held up >= RetentionSleep between arming the timer and polling)", checks, late)
